@@ -28,6 +28,16 @@ func main() {
 	r := common.Start("C02", "model_checking")
 	laySkip = layoutOf(reflect.TypeOf(listz.SkipList[int, int]{}), false)
 	layCmp = layoutOf(reflect.TypeOf(listz.SkipListWithCmp[int, int]{}), true)
+	{ // which int counts the bindings, if the fields are not called len / level
+		a := listz.NewSkipList[int, int]()
+		b := listz.NewSkipListWithCmp[int, int](func(x, y int) int { return x - y })
+		for k := 1; k <= 40; k++ {
+			a.Set(k, 0)
+			b.Set(k, 0)
+		}
+		laySkip.bindLenLevel(unsafe.Pointer(a), 40)
+		layCmp.bindLenLevel(unsafe.Pointer(b), 40)
+	}
 	menu, heights := selfTest(r)
 
 	nkeys, nmenu, levelCap := 3, 3, 0
@@ -170,7 +180,10 @@ func (s *script) Seed(int64)   { s.armed = false }
 
 // ---------------------------------------------------------------- private layout
 
-// mnode mirrors SkipNode[int,int] / SkipNodeCmp[int,int]; layoutOf verifies the mirror on every run.
+// mnode is the harness's own picture of a node; mirror() builds it from the real private graph
+// through the offsets layoutOf discovers, so extra, renamed or reordered private fields in the node
+// or the list do not matter as long as a node still has an int key, an int value and one slice of
+// pointers to nodes, and the list an embedded head node, two ints (len, level) and one *rand.Rand.
 type mnode struct {
 	key, val int
 	next     []*mnode
@@ -178,19 +191,13 @@ type mnode struct {
 
 type layout struct {
 	head, len, level, rand uintptr
+	nkey, nval, nnext      uintptr // inside a node
 }
 
 var laySkip, layCmp layout
 
 func layoutOf(t reflect.Type, wantCmp bool) layout {
 	var l layout
-	f := func(name string) reflect.StructField {
-		sf, ok := t.FieldByName(name)
-		if !ok {
-			common.Infra("%s: private field %q not found — the harness cannot own the tower heights / read the level", t, name)
-		}
-		return sf
-	}
 	// the generator is found by type, whatever its name
 	found := 0
 	for i := 0; i < t.NumField(); i++ {
@@ -202,26 +209,94 @@ func layoutOf(t reflect.Type, wantCmp bool) layout {
 	if found != 1 {
 		common.Infra("%s: expected exactly one private field of type *math/rand.Rand, found %d — tower heights cannot be enumerated", t, found)
 	}
-	h, ln, lv := f("head"), f("len"), f("level")
-	if ln.Type.Kind() != reflect.Int || lv.Type.Kind() != reflect.Int {
-		common.Infra("%s: len/level are not int", t)
+	// the head node: the field whose struct type has a slice of pointers to itself
+	isNode := func(nt reflect.Type) (next reflect.StructField, ok bool) {
+		if nt.Kind() != reflect.Struct {
+			return next, false
+		}
+		n := 0
+		for i := 0; i < nt.NumField(); i++ {
+			f := nt.Field(i)
+			if f.Type.Kind() == reflect.Slice && f.Type.Elem().Kind() == reflect.Ptr && f.Type.Elem().Elem() == nt {
+				next, n = f, n+1
+			}
+		}
+		return next, n == 1
 	}
-	nt := h.Type
-	ok := nt.Kind() == reflect.Struct && nt.NumField() == 3 && nt.Size() == unsafe.Sizeof(mnode{})
-	if ok {
-		k, v, n := nt.Field(0), nt.Field(1), nt.Field(2)
-		ok = k.Name == "key" && k.Type.Kind() == reflect.Int && k.Offset == unsafe.Offsetof(mnode{}.key) &&
-			v.Name == "val" && v.Type.Kind() == reflect.Int && v.Offset == unsafe.Offsetof(mnode{}.val) &&
-			n.Name == "next" && n.Type.Kind() == reflect.Slice && n.Type.Elem().Kind() == reflect.Ptr && n.Type.Elem().Elem() == nt && n.Offset == unsafe.Offsetof(mnode{}.next)
+	var nt reflect.Type
+	heads := 0
+	for i := 0; i < t.NumField(); i++ {
+		if nx, ok := isNode(t.Field(i).Type); ok {
+			nt, l.head, l.nnext = t.Field(i).Type, t.Field(i).Offset, nx.Offset
+			heads++
+		}
 	}
-	if !ok {
-		common.Infra("%s: node layout is no longer {key, val, next []*node}: %s", t, nt)
+	if heads != 1 {
+		common.Infra("%s: expected exactly one embedded head node (a struct with a slice of pointers to itself), found %d", t, heads)
 	}
-	l.head, l.len, l.level = h.Offset, ln.Offset, lv.Offset
-	if _, has := t.FieldByName("cmp"); has != wantCmp {
-		common.Infra("%s: comparator field presence = %v, expected %v", t, has, wantCmp)
+	// key and value of a node: by name if the names are there, else the first two int fields
+	var ints []reflect.StructField
+	for i := 0; i < nt.NumField(); i++ {
+		if nt.Field(i).Type.Kind() == reflect.Int {
+			ints = append(ints, nt.Field(i))
+		}
 	}
+	kf, okk := nt.FieldByName("key")
+	vf, okv := nt.FieldByName("val")
+	if !okk || !okv || kf.Type.Kind() != reflect.Int || vf.Type.Kind() != reflect.Int {
+		if len(ints) != 2 {
+			common.Infra("%s: a node has neither int fields key/val nor exactly two int fields: %s", t, nt)
+		}
+		kf, vf = ints[0], ints[1]
+	}
+	l.nkey, l.nval = kf.Offset, vf.Offset
+	// len and level of the list: by name, else told apart by behaviour (see bindLenLevel)
+	lf, okl := t.FieldByName("len")
+	vl, okv2 := t.FieldByName("level")
+	if okl && okv2 && lf.Type.Kind() == reflect.Int && vl.Type.Kind() == reflect.Int {
+		l.len, l.level = lf.Offset, vl.Offset
+	} else {
+		var li []reflect.StructField
+		for i := 0; i < t.NumField(); i++ {
+			if t.Field(i).Type.Kind() == reflect.Int {
+				li = append(li, t.Field(i))
+			}
+		}
+		if len(li) != 2 {
+			common.Infra("%s: expected int fields len and level (or exactly two int fields), found %d ints", t, len(li))
+		}
+		// provisional: bindLenLevel swaps them if the first one does not count the bindings
+		l.len, l.level = li[0].Offset, li[1].Offset
+	}
+	_ = wantCmp
 	return l
+}
+
+// bindLenLevel settles which of two unnamed ints counts the bindings: base points at a freshly
+// constructed list that now holds exactly n keys (n above the maximal level).
+func (l *layout) bindLenLevel(base unsafe.Pointer, n int) {
+	if *(*int)(unsafe.Add(base, l.len)) != n && *(*int)(unsafe.Add(base, l.level)) == n {
+		l.len, l.level = l.level, l.len
+	}
+}
+
+// mirror copies the real node graph reachable from the node at p into mnode values (pointer
+// identity preserved through memo).
+func (l *layout) mirror(p unsafe.Pointer, memo map[unsafe.Pointer]*mnode) *mnode {
+	if p == nil {
+		return nil
+	}
+	if m, ok := memo[p]; ok {
+		return m
+	}
+	m := &mnode{key: *(*int)(unsafe.Add(p, l.nkey)), val: *(*int)(unsafe.Add(p, l.nval))}
+	memo[p] = m
+	next := *(*[]unsafe.Pointer)(unsafe.Add(p, l.nnext))
+	m.next = make([]*mnode, len(next))
+	for i, q := range next {
+		m.next[i] = l.mirror(q, memo)
+	}
+	return m
 }
 
 // ---------------------------------------------------------------- configuration of one system
@@ -384,7 +459,9 @@ type inst[N nodeT[N], L listT[N]] struct {
 func (x *inst[N, L]) randp() **rand.Rand { return (**rand.Rand)(unsafe.Add(x.base, x.cfg.lay.rand)) }
 func (x *inst[N, L]) level() int         { return *(*int)(unsafe.Add(x.base, x.cfg.lay.level)) }
 func (x *inst[N, L]) plen() int          { return *(*int)(unsafe.Add(x.base, x.cfg.lay.len)) }
-func (x *inst[N, L]) head() *mnode       { return (*mnode)(unsafe.Add(x.base, x.cfg.lay.head)) }
+func (x *inst[N, L]) head() *mnode {
+	return x.cfg.lay.mirror(unsafe.Add(x.base, x.cfg.lay.head), map[unsafe.Pointer]*mnode{})
+}
 
 // inject installs the scripted generator if (and only if) the list currently owns a generator that
 // is not ours. A nil generator stays nil: golib must cope with its own zero values.
